@@ -10,6 +10,7 @@ package main
 // exact, and two abstract strings are equal iff their normal forms are.  Maps are keyed by the normal form.
 
 import (
+	"unicode"
 	"net/textproto"
 	"path"
 	"strconv"
@@ -1302,6 +1303,11 @@ func (e *absEnv) stdCall(fr *absFrame, name string, args []aval, depth int) (ava
 				}
 			}
 			return aint(int64(v)), true
+		}
+	case "unicode.IsSpace", "unicode.IsDigit", "unicode.IsLetter", "unicode.IsUpper", "unicode.IsLower":
+		if v, ok := args[0].(aint); ok {
+			f := map[string]func(rune) bool{"unicode.IsSpace": unicode.IsSpace, "unicode.IsDigit": unicode.IsDigit, "unicode.IsLetter": unicode.IsLetter, "unicode.IsUpper": unicode.IsUpper, "unicode.IsLower": unicode.IsLower}[base]
+			return abool(f(rune(v))), true
 		}
 	case "strconv.Itoa":
 		if v, ok := args[0].(aint); ok {
